@@ -237,6 +237,7 @@ type Obligation struct {
 	Prefix  int  // number of script lines visible
 	Goal    Term // must be valid under the prefix
 	Canary  bool // must FAIL (reachability witness)
+	NoRetry bool
 	Serves  []string
 	Clause  string // human-readable clause text
 	Known   string // known-finding id if this is the K-case of a split
